@@ -44,6 +44,13 @@ def shards(tier, seed):
 STATE = {"n": 0}
 
 
+class WriteOnly:
+    """the least a print() target needs"""
+
+    def write(self, text):
+        return len(text)
+
+
 def as_buffer(b, n):
     """the sense bytes in the kinds of buffer bindings and callers hand over"""
     import array
@@ -98,7 +105,13 @@ def check(ctx, mod, ref, buf, want_text=True, sample=False):
         STATE["n"] += 1
         ctx.add("buffer_types", "ctypes array" if type(mutable).__name__.startswith("c_ubyte_Array") else type(mutable).__name__)
         try:
-            exc = mod.SCSICheckCondition(mutable, print_data=pd) if pd else mod.SCSICheckCondition(mutable)
+            by_keyword = STATE["n"] % 3 == 0
+            if by_keyword:
+                # the documented parameter names as keywords
+                exc = mod.SCSICheckCondition(sense=mutable, print_data=pd) if pd else mod.SCSICheckCondition(sense=mutable)
+                ctx.count("keyword_constructions")
+            else:
+                exc = mod.SCSICheckCondition(mutable, print_data=pd) if pd else mod.SCSICheckCondition(mutable)
         except Exception as e:  # noqa: BLE001
             ctx.fail("C08:construct_raises.%s" % cls, "SCSICheckCondition(%s) raised %s: %s" % (bytes(buf)[:18].hex(), type(e).__name__, e), wit, exc=e)
             return
@@ -109,7 +122,8 @@ def check(ctx, mod, ref, buf, want_text=True, sample=False):
                 mutable[i] = 0
         text = None
         try:
-            sink = io.StringIO()
+            # standard output as programs have it: a text stream, nothing at all (daemons, pythonw), or an object that can only write()
+            sink = (io.StringIO(), io.StringIO(), None, WriteOnly())[STATE["n"] % 4]
             with contextlib.redirect_stdout(sink):
                 text = str(exc)
                 print(exc)
@@ -138,9 +152,10 @@ def check(ctx, mod, ref, buf, want_text=True, sample=False):
             RECENT.append((exc, exc.data.get("sense_key"), getattr(exc, "asc", None), getattr(exc, "ascq", None), text))
             if len(RECENT) > 3:
                 RECENT.pop(0)
-        if STATE["n"] % 7 in (0, 1) and not pd and isinstance(mutable, (bytes, bytearray, list, tuple)):
+        if STATE["n"] % 7 in (0, 1, 2) and not pd and not by_keyword and isinstance(mutable, (bytes, bytearray, list, tuple)):
             # exceptions get copied and pickled (across processes, by logging handlers and test runners); only where the
-            # caller's buffer itself can be (a memoryview or ctypes array kept by the exception cannot, in any Python class)
+            # caller's buffer itself can be (a memoryview or ctypes array kept by the exception cannot, in any Python class) and the
+            # condition was constructed positionally, as the transports do (no Python exception keeps keyword arguments for copying)
             import copy as _copy
             import pickle as _pickle
 
